@@ -155,7 +155,7 @@ func (p *Parser) parseComparisonExpression() (ast.Expression, error) {
 		p.advance() // Consume LIKE/ILIKE
 
 		// Parse pattern
-		pattern, err := p.parsePrimaryExpression()
+		pattern, err := p.parseStringConcatExpression()
 		if err != nil {
 			return nil, goerrors.InvalidSyntaxError(
 				fmt.Sprintf("failed to parse LIKE pattern: %v", err),
@@ -176,7 +176,7 @@ func (p *Parser) parseComparisonExpression() (ast.Expression, error) {
 	if strings.EqualFold(p.currentToken.Literal, "REGEXP") || strings.EqualFold(p.currentToken.Literal, "RLIKE") {
 		operator := strings.ToUpper(p.currentToken.Literal)
 		p.advance()
-		pattern, err := p.parsePrimaryExpression()
+		pattern, err := p.parseStringConcatExpression()
 		if err != nil {
 			return nil, goerrors.InvalidSyntaxError(
 				fmt.Sprintf("failed to parse REGEXP pattern: %v", err),
@@ -339,7 +339,7 @@ func (p *Parser) parseComparisonExpression() (ast.Expression, error) {
 		}
 
 		// Parse the right side of the expression
-		right, err := p.parsePrimaryExpression()
+		right, err := p.parseStringConcatExpression()
 		if err != nil {
 			return nil, err
 		}
